@@ -1207,6 +1207,8 @@ class ktensor:
             assert False, "Mask cannot be bigger than the data tensor"
 
         # Extract locations of nonzeros in W
+        if W.nnz == 0:
+            return np.zeros((0, 1))
         wsubs, _ = W.find()
 
         # Assemble return array
